@@ -4,7 +4,7 @@
                  values reproduce the observed formatting output AND the observed --list-files output
                  (sources: "default" | "flagval" | "cfgval" | "preset"; several pairs can fit when values coincide).
    locate trace: [id, fam, p, obs]   p = per directory depth the set of config file kinds present,
-                 obs = <<depth, kind>> of the file whose (unique) width the output shows, or <<>> for the default.
+                 obs = the candidates <<depth, kind>> (or <<>> for the default) whose width reproduces the output.
    The machine of Config (Parse; Merge / Search) is stepped on the trace's point; verdict = the observation is
    consistent with Effective / Nearest-file as specified. *)
 EXTENDS Config, IOUtils
@@ -19,7 +19,7 @@ TraceInit == /\ tid \in 1..Len(Traces) /\ fam = Traces[tid].fam
              /\ pc = "parse" /\ explicit = {} /\ eff = <<>> /\ chosen = <<>>
 TraceSpec == TraceInit /\ [][Next /\ UNCHANGED tid]_tvars
 Consistent == IF fam = "merge" THEN <<Effective(p.s1), Effective(p.s2)>> \in ToSet(T.obs)
-              ELSE T.obs = chosen
+              ELSE chosen \in ToSet(T.obs)
 MachineOK == IF fam = "merge" THEN Precedence ELSE Located
 Report == pc = "done" => PrintT(ToJson(<<"R", T.id, MachineOK, Consistent,
                                          IF fam = "merge" THEN <<Effective(p.s1), Effective(p.s2)>> ELSE chosen>>))
